@@ -11,4 +11,5 @@ for id in "$@"; do
 done
 git checkout -- . 
 (cd /verif && python3 -c "import sys; sys.path.insert(0,'runner'); import rtl_common as R; R.regenerate()" >/dev/null 2>&1)
+(cd /verif && git checkout -- evidence/ 2>/dev/null)   # evidence written while the seeded change was applied is not evidence
 git status --short | grep -v _build
